@@ -40,6 +40,9 @@ type PropDef struct {
 	// (frame sweeps); empty = none.
 	Sweep      string   `json:"sweep"`
 	SweepKinds []string `json:"sweep_kinds"`
+	// SweepPreCallFilter: in a sweep, a pre@call obligation of a contract function is part of this property
+	// only if its name matches (empty: all).  Other preconditions belong to the safety sweep (C01).
+	SweepPreCallFilter string `json:"sweep_precall_filter"`
 	Hooks      string   `json:"hooks"` // "", "rowrite"
 	Scans      []string `json:"scans"` // structural SSA obligations (scan.go)
 	TrustedBase []string `json:"trusted_base"`
@@ -258,6 +261,10 @@ func runCheck(args []string) int {
 		for _, k := range pd.SweepKinds {
 			sk[k] = true
 		}
+		var preCallRe *regexp.Regexp
+		if pd.SweepPreCallFilter != "" {
+			preCallRe = regexp.MustCompile(pd.SweepPreCallFilter)
+		}
 		var otherClaims []string
 		for id, pl := range claimedPatternsByProp(verif) {
 			if id != pd.ID {
@@ -291,6 +298,9 @@ func runCheck(args []string) int {
 				// own clauses (invariants the frame obligations lean on); run-time safety kinds are C01's
 				if sk[o.Kind] || (sp != nil && !elsewhere && logicalKind[o.Kind]) {
 					if exclRe != nil && exclRe.MatchString(o.Name) {
+						continue
+					}
+					if o.Kind == "pre@call" && !sk[o.Kind] && preCallRe != nil && !preCallRe.MatchString(o.Name) {
 						continue
 					}
 					keep = append(keep, o)
